@@ -80,10 +80,19 @@ Reply == /\ Ev.ev = "Reply" /\ nreply' = nreply + 1
             ELSE NoNote
          /\ UNCHANGED nlook
 
+(* ---- local knowledge of a node (C02: "everything the replying node knows"): exactly the peers it is connected to,
+        each once, in ascending distance ---- *)
+Local == /\ Ev.ev = "Local" /\ nreply' = nreply + 1
+         /\ IF ~Distinct(Ev.initial) THEN Note("LocalDistinct", "find_closest_nodes_local", "dup")
+            ELSE IF Ev.self \in Rng(Ev.initial) THEN Note("LocalNoSelf", "find_closest_nodes_local", "self")
+            ELSE IF Ev.initial # SortByRank(Rng(Ev.neigh)) THEN Note("LocalExact", "find_closest_nodes_local", "members-or-order")
+            ELSE NoNote
+         /\ UNCHANGED nlook
+
 Reset == Ev.ev = "Reset" /\ NoNote /\ UNCHANGED <<nlook, nreply>>
 
 Init == l = 1 /\ viol = <<>> /\ nviol = 0 /\ nlook = 0 /\ nreply = 0
-Next == l <= N /\ l' = l + 1 /\ (Reset \/ Lookup \/ Reply)
+Next == l <= N /\ l' = l + 1 /\ (Reset \/ Lookup \/ Reply \/ Local)
 Spec == Init /\ [][Next]_vars
 Report == (l = N + 1) =>
   JsonSerialize(IOEnv.OUT, [consumed |-> l - 1, total |-> N, nviol |-> nviol, checked |-> nlook + nreply,
